@@ -227,6 +227,7 @@ int main(int argc, char* const* argv)
         char buf[1024];
         if (!fgets(buf, 1024, stdin)) {
             fprintf(stderr, "warning: no input\n");
+            buf[0] = 0;
         }
         int len = strlen(buf);
         while (len > 0 && (buf[len-1] == '\n' || buf[len-1] == '\r')) buf[--len] = 0;
